@@ -2,6 +2,7 @@ import Fuota.Drv.D3
 import Fuota.Drv.D1
 import Fuota.Drv.D2
 import Fuota.Drv.D4
+import Fuota.Drv.D7
 import Fuota.Drv.D5
 /-! Line-protocol driver: one query per input line, one canonical answer per output line.
     Imports the model files only (no Mathlib), so it links as a native executable.
@@ -20,6 +21,9 @@ def step (st : St) (line : String) : St × String :=
   | some o => (st, o)
   | none =>
   match D2.step toks with
+  | some o => (st, o)
+  | none =>
+  match D7.step toks with
   | some o => (st, o)
   | none =>
   match D1.step st.d1 toks with
